@@ -1,7 +1,938 @@
-//! C02: not built yet.
-use anyhow::{bail, Result};
-use serde_json::Value;
+//! C02: the class writer emits a well-formed file denoting exactly the given class.
+//!
+//! The driver only converts: it builds / looks up an input class, lets duke read it (the property
+//! quantifies over trees the reader produces), optionally renames the tree (`dukebox::remap`) or sets
+//! `local_variables` by hand, calls `duke::write_class`, parses the output with the independent strict
+//! parser of `cfkit` and ships what both sides *state* in abstract form.  Every judgement (well-formedness
+//! of the recorded summary, alignment of the written instruction list with the tree's, "designates the
+//! same instruction", range / padding / limit rules, success iff a layout exists) is made by
+//! `spec/duke/Trace_ClassWrite.tla`.
+//!
+//! ops (input)
+//!   {"op":"layout","items":[{"k":"pad","n":N,"t":[]}|{"k":"grow",..}|{"k":"if"|"goto"|"jsr","t":[i]}|{"k":"tsw"|"lsw","t":[d,a..]}]}
+//!        item list of spec/duke/CodeLayout.tla, targets are 1-based item indices.  Materialised as a class
+//!        whose method `m` holds: pad = N `nop`, grow = an `ldc` that has a one byte index in the input and
+//!        needs `ldc_w` in duke's output (a filler method with 260 constants precedes `m`), jumps in the
+//!        shortest form the input can hold.  A list the input cannot hold -> {"skipped":true}.
+//!   {"op":"pool","pre":P,"puts":[C..],"pad":Q}
+//!        P interfaces (2P pool entries in front of everything the method needs), then one `ldc` per
+//!        constant C (facts form); the input pool is padded with Q fillers.
+//!   {"op":"write","id":ID,"variant":"plain"|"renamed"|"lvt"}
+//!        corpus / sample class by id (`cfkit::duke_diff::inputs()` naming), generated families `gen/...`.
+//! got
+//!   {"skipped":true,"why":..} | {"res":"err","msg":..} |
+//!   {"res":"ok","parse":"ok"|"err","raw":{pool,uses,lengths,limits},"diffs":[[kind,path]..],"detail":[..],
+//!    (uses: [[expected kinds, [indices..]]..]; lengths: [[declared, measured]..])
+//!    "methods":[{"m","nt","no","len","T":[item..],"O":[item..],"offs":{"<out index>":offset},"tabs":[[t,d]..]}]}
+//!   items  T: {"k":"r","s":start,"c":count,"h":hash} | {"k":"j","s":index,"op":mnemonic,"t":[tree target index..],"h":hash}
+//!          O: the same with "off" (byte offset) and for jumps "d":[decoded target offset..],"form","len","pad"
+//!   tabs   for every exception bound / table entry / frame / type annotation position present on both
+//!          sides: (instruction index in the tree, byte offset the written file designates)
+//!   diffs  differences between `duke_to_facts(tree)` and the facts parsed from the output, outside the
+//!          instruction lists and with instruction indices masked (those are judged through T/O/tabs)
+use std::collections::{BTreeMap, BTreeSet, HashMap};
+use std::hash::{Hash, Hasher};
+use std::io::Cursor;
+use std::sync::OnceLock;
+use anyhow::{anyhow, bail, Context, Result};
+use rand::rngs::StdRng;
+use rand::{Rng, SeedableRng};
+use serde_json::{json, Map, Value};
+use cfkit::asm::{assemble, AsmError, Encoding};
+use cfkit::duke_diff::{diff, WRITE_KINDS};
+use cfkit::parse::parse_class;
+use cfkit::proj_duke::duke_to_facts;
+use duke::tree::class::ClassFile;
 
-pub fn exec(_v: &Value) -> Result<Value> { bail!("C02: driver not built") }
+const IF_OPS: [&str; 16] = ["ifeq", "ifne", "iflt", "ifge", "ifgt", "ifle", "if_icmpeq", "if_icmpne", "if_icmplt", "if_icmpge",
+	"if_icmpgt", "if_icmple", "if_acmpeq", "if_acmpne", "ifnull", "ifnonnull"];
 
-pub fn gen(_seed: u64, _n: usize) -> Result<Vec<Value>> { bail!("C02: driver not built") }
+// ---------------------------------------------------------------------------------------------
+// abstract view of an instruction list
+
+fn hash_value(v: &Value, h: &mut impl Hasher) {
+	match v {
+		Value::Null => 0u8.hash(h),
+		Value::Bool(b) => (1u8, b).hash(h),
+		Value::Number(n) => (2u8, n.as_i64(), n.as_u64()).hash(h),
+		Value::String(s) => (3u8, s).hash(h),
+		Value::Array(a) => {
+			(4u8, a.len()).hash(h);
+			for x in a {
+				hash_value(x, h);
+			}
+		}
+		Value::Object(o) => {
+			(5u8, o.len()).hash(h);
+			for (k, x) in o {
+				k.hash(h);
+				hash_value(x, h);
+			}
+		}
+	}
+}
+
+fn h64(v: &Value) -> u64 {
+	let mut h = std::collections::hash_map::DefaultHasher::new();
+	hash_value(v, &mut h);
+	h.finish()
+}
+
+/// `{k: v, ..}` built by moving the values (`json!` would clone them)
+fn obj<const N: usize>(kv: [(&str, Value); N]) -> Value {
+	let mut m = Map::new();
+	for (k, v) in kv {
+		m.insert(k.to_string(), v);
+	}
+	Value::Object(m)
+}
+
+fn code_facts(max_stack: u16, max_locals: u16, insns: Vec<Value>, exceptions: Vec<Value>, attrs: Value) -> Value {
+	obj([("max_stack", json!(max_stack)), ("max_locals", json!(max_locals)), ("insns", Value::Array(insns)),
+		("exceptions", Value::Array(exceptions)), ("attrs", attrs)])
+}
+
+fn method_facts(access: u16, name: &str, desc: &str, code: Value) -> Value {
+	obj([("access", json!(access)), ("name", json!(name)), ("desc", json!(desc)), ("attrs", obj([("Code", code)]))])
+}
+
+fn class_facts(major: u16, this: &str, interfaces: Vec<Value>, methods: Vec<Value>) -> Value {
+	obj([("version", json!([major, 0])), ("access", json!(0x21)), ("this", json!(this)), ("super", json!("java/lang/Object")),
+		("interfaces", Value::Array(interfaces)), ("fields", json!([])), ("methods", Value::Array(methods)), ("attrs", json!({}))])
+}
+
+/// (mnemonic, target indices, the instruction without its targets) of a jump or switch.
+fn jump_parts(insn: &Value) -> Option<(String, Vec<i64>, Value)> {
+	let op = insn.get("op")?.as_str()?;
+	let is_jump = IF_OPS.contains(&op) || op == "goto" || op == "jsr";
+	if !is_jump && op != "tableswitch" && op != "lookupswitch" {
+		return None;
+	}
+	let mut rest = insn.clone();
+	if is_jump {
+		let t = insn.get("target")?.as_i64()?;
+		rest["target"] = json!(0);
+		return Some((op.to_string(), vec![t], rest));
+	}
+	if op == "tableswitch" {
+		let mut t = vec![insn.get("default")?.as_i64()?];
+		for x in insn.get("targets")?.as_array()? {
+			t.push(x.as_i64()?);
+		}
+		rest["default"] = json!(0);
+		rest["targets"] = json!(t.len() - 1);
+		return Some((op.to_string(), t, rest));
+	}
+	if op == "lookupswitch" {
+		let mut t = vec![insn.get("default")?.as_i64()?];
+		let mut keys = Vec::new();
+		for p in insn.get("pairs")?.as_array()? {
+			keys.push(p.get(0)?.clone());
+			t.push(p.get(1)?.as_i64()?);
+		}
+		rest["default"] = json!(0);
+		rest["pairs"] = json!(keys);
+		return Some((op.to_string(), t, rest));
+	}
+	None
+}
+
+struct OutLayout<'a> {
+	offsets: &'a [i64],
+	forms: &'a [Value],
+	code_length: i64,
+	switch_pad: &'a Map<String, Value>,
+}
+
+impl OutLayout<'_> {
+	/// byte offset of the instruction with this index; the index one past the end is the code length
+	fn off(&self, i: i64) -> Result<i64> {
+		if i >= 0 && (i as usize) < self.offsets.len() {
+			Ok(self.offsets[i as usize])
+		} else if i as usize == self.offsets.len() {
+			Ok(self.code_length)
+		} else {
+			bail!("instruction index {i} outside the parsed code")
+		}
+	}
+}
+
+/// Runs of other instructions (count + hash) separated by jumps / switches.
+fn skeleton(insns: &[Value], out: Option<&OutLayout>, interesting: &mut BTreeSet<i64>) -> Result<Vec<Value>> {
+	let mut items = Vec::new();
+	let mut run: Option<(usize, usize, std::collections::hash_map::DefaultHasher)> = None;
+	let flush = |run: &mut Option<(usize, usize, std::collections::hash_map::DefaultHasher)>, items: &mut Vec<Value>| -> Result<()> {
+		if let Some((s, c, h)) = run.take() {
+			let mut it = json!({"k": "r", "s": s, "c": c, "h": format!("{:016x}", h.finish())});
+			if let Some(o) = out {
+				it["off"] = json!(o.off(s as i64)?);
+			}
+			items.push(it);
+		}
+		Ok(())
+	};
+	for (i, insn) in insns.iter().enumerate() {
+		match jump_parts(insn) {
+			None => {
+				let r = run.get_or_insert_with(|| (i, 0, std::collections::hash_map::DefaultHasher::new()));
+				r.1 += 1;
+				hash_value(insn, &mut r.2);
+			}
+			Some((op, targets, rest)) => {
+				flush(&mut run, &mut items)?;
+				let mut it = json!({"k": "j", "s": i, "op": op, "h": format!("{:016x}", h64(&rest))});
+				match out {
+					None => it["t"] = json!(targets),
+					Some(o) => {
+						let mut d = Vec::new();
+						for t in &targets {
+							d.push(o.off(*t)?);
+							interesting.insert(*t);
+						}
+						it["d"] = json!(d);
+						it["off"] = json!(o.off(i as i64)?);
+						it["len"] = json!(o.off(i as i64 + 1)? - o.off(i as i64)?);
+						it["form"] = o.forms.get(i).cloned().unwrap_or(Value::Null);
+						it["pad"] = json!(o.switch_pad.get(&i.to_string()).and_then(Value::as_array).map_or(0, |a| a.len()));
+						interesting.insert(i as i64);
+						interesting.insert(i as i64 + 1);
+					}
+				}
+				items.push(it);
+			}
+		}
+	}
+	flush(&mut run, &mut items)?;
+	Ok(items)
+}
+
+/// Calls `f(path, value)` for every number of a Code attribute's facts that is an instruction index
+/// (FACTS.md: exception table, LineNumberTable, LocalVariable(Type)Table, StackMapTable, type annotation targets).
+fn visit_indices(code: &mut Value, f: &mut dyn FnMut(String, &mut Value)) {
+	if let Some(rows) = code.get_mut("exceptions").and_then(Value::as_array_mut) {
+		for (k, row) in rows.iter_mut().enumerate() {
+			for key in ["start", "end", "handler"] {
+				if let Some(v) = row.get_mut(key) {
+					f(format!("exceptions/{k}/{key}"), v);
+				}
+			}
+		}
+	}
+	let Some(attrs) = code.get_mut("attrs").and_then(Value::as_object_mut) else { return };
+	if let Some(rows) = attrs.get_mut("LineNumberTable").and_then(Value::as_array_mut) {
+		for (k, row) in rows.iter_mut().enumerate() {
+			if let Some(v) = row.get_mut(0) {
+				f(format!("LineNumberTable/{k}"), v);
+			}
+		}
+	}
+	for name in ["LocalVariableTable", "LocalVariableTypeTable"] {
+		if let Some(rows) = attrs.get_mut(name).and_then(Value::as_array_mut) {
+			for (k, row) in rows.iter_mut().enumerate() {
+				for key in ["start", "end"] {
+					if let Some(v) = row.get_mut(key) {
+						f(format!("{name}/{k}/{key}"), v);
+					}
+				}
+			}
+		}
+	}
+	if let Some(frames) = attrs.get_mut("StackMapTable").and_then(Value::as_array_mut) {
+		for (k, fr) in frames.iter_mut().enumerate() {
+			if let Some(v) = fr.get_mut("at") {
+				f(format!("StackMapTable/{k}/at"), v);
+			}
+			for key in ["locals", "stack"] {
+				if let Some(l) = fr.get_mut(key).and_then(Value::as_array_mut) {
+					for (j, vt) in l.iter_mut().enumerate() {
+						if let Some(v) = vt.get_mut("uninitialized") {
+							f(format!("StackMapTable/{k}/{key}/{j}"), v);
+						}
+					}
+				}
+			}
+		}
+	}
+	for name in ["RuntimeVisibleTypeAnnotations", "RuntimeInvisibleTypeAnnotations"] {
+		if let Some(annos) = attrs.get_mut(name).and_then(Value::as_array_mut) {
+			for (k, a) in annos.iter_mut().enumerate() {
+				let Some(t) = a.get_mut("target") else { continue };
+				if let Some(v) = t.get_mut("insn") {
+					f(format!("{name}/{k}/insn"), v);
+				}
+				if let Some(rows) = t.get_mut("table").and_then(Value::as_array_mut) {
+					for (j, row) in rows.iter_mut().enumerate() {
+						for key in ["start", "end"] {
+							if let Some(v) = row.get_mut(key) {
+								f(format!("{name}/{k}/table/{j}/{key}"), v);
+							}
+						}
+					}
+				}
+			}
+		}
+	}
+}
+
+fn code_of(method: &mut Value) -> Option<&mut Value> {
+	method.get_mut("attrs")?.get_mut("Code")
+}
+
+/// Takes the instruction lists and instruction indices out of class facts: returns per method with code
+/// (method index, insns, path -> index).
+fn split_code(facts: &mut Value) -> Vec<(usize, Vec<Value>, BTreeMap<String, i64>)> {
+	let mut out = Vec::new();
+	let Some(methods) = facts.get_mut("methods").and_then(Value::as_array_mut) else { return out };
+	for (m, method) in methods.iter_mut().enumerate() {
+		let Some(code) = code_of(method) else { continue };
+		let insns = match code.get_mut("insns") {
+			Some(i) => match std::mem::replace(i, Value::Null) {
+				Value::Array(a) => a,
+				_ => Vec::new(),
+			},
+			None => Vec::new(),
+		};
+		let mut idx = BTreeMap::new();
+		visit_indices(code, &mut |p, v| {
+			idx.insert(p, v.as_i64().unwrap_or(-1));
+			*v = json!(0);
+		});
+		out.push((m, insns, idx));
+	}
+	out
+}
+
+fn raw_summary(raw: &Value) -> Value {
+	// every (index, expected kinds) once, grouped by the expected kinds
+	let mut groups: BTreeMap<String, (Value, BTreeSet<u64>)> = BTreeMap::new();
+	for u in raw["uses"].as_array().map(|a| a.as_slice()).unwrap_or(&[]) {
+		let g = groups.entry(u[1].to_string()).or_insert_with(|| (u[1].clone(), BTreeSet::new()));
+		g.1.insert(u[0].as_u64().unwrap_or(u64::MAX));
+	}
+	let uses: Vec<Value> = groups.into_values().map(|(k, idx)| json!([k, idx.into_iter().collect::<Vec<_>>()])).collect();
+	let lengths: Vec<Value> = raw["lengths"].as_array().map(|a| a.as_slice()).unwrap_or(&[]).iter().map(|l| json!([l[0], l[1]])).collect();
+	json!({"pool": raw["pool"], "uses": uses, "lengths": lengths, "limits": raw["limits"]})
+}
+
+/// Writes the tree, parses the output independently and projects both sides.
+fn write_and_observe(tree: &ClassFile) -> Result<Value> {
+	let mut expected = duke_to_facts(tree).map_err(|e| anyhow!("projection of the tree: {e}"))?;
+	let mut bytes: Vec<u8> = Vec::new();
+	if let Err(e) = duke::write_class(&mut bytes, tree) {
+		return Ok(json!({"res": "err", "msg": format!("{e:#}").chars().take(300).collect::<String>()}));
+	}
+	// debugging aid: C02_DUMP=<dir> keeps the written class files
+	if let Some(dir) = std::env::var_os("C02_DUMP") {
+		static N: std::sync::atomic::AtomicUsize = std::sync::atomic::AtomicUsize::new(0);
+		let n = N.fetch_add(1, std::sync::atomic::Ordering::SeqCst);
+		std::fs::write(std::path::Path::new(&dir).join(format!("out{n}.class")), &bytes)?;
+	}
+	let parsed = match parse_class(&bytes) {
+		Ok(p) => p,
+		Err(e) => return Ok(json!({"res": "ok", "parse": "err", "msg": e.to_string(), "size": bytes.len()})),
+	};
+	let mut facts = parsed.facts;
+	let exp_code = split_code(&mut expected);
+	let out_code = split_code(&mut facts);
+	let diffs = diff(&expected, &facts, WRITE_KINDS);
+	let mut atoms: Vec<Value> = cfkit::duke_diff::atoms(&diffs).into_iter().map(|(p, k)| json!([k, p])).collect();
+	atoms.truncate(40);
+	let detail: Vec<Value> = diffs.iter().take(5).map(|d| json!([d.kind, d.path])).collect();
+
+	let layouts: HashMap<u64, &Value> = parsed.layout.as_array().map(|a| a.as_slice()).unwrap_or(&[]).iter()
+		.filter_map(|l| Some((l.get("method")?.as_u64()?, l))).collect();
+	let out_by_m: HashMap<usize, &(usize, Vec<Value>, BTreeMap<String, i64>)> = out_code.iter().map(|x| (x.0, x)).collect();
+	let mut methods = Vec::new();
+	for (m, insns, idx) in &exp_code {
+		let Some((_, oinsns, oidx)) = out_by_m.get(m) else { continue };
+		let lay = layouts.get(&(*m as u64)).with_context(|| format!("no layout for method {m}"))?;
+		let offsets: Vec<i64> = lay["offsets"].as_array().context("offsets")?.iter().map(|x| x.as_i64().unwrap_or(-1)).collect();
+		let empty = Map::new();
+		let o = OutLayout {
+			offsets: &offsets,
+			forms: lay["forms"].as_array().context("forms")?,
+			code_length: lay["code_length"].as_i64().context("code_length")?,
+			switch_pad: lay["switch_pad"].as_object().unwrap_or(&empty),
+		};
+		let mut interesting = BTreeSet::new();
+		let t_items = skeleton(insns, None, &mut BTreeSet::new())?;
+		let o_items = skeleton(oinsns, Some(&o), &mut interesting)?;
+		let mut tabs = BTreeSet::new();
+		for (p, t) in idx {
+			if let Some(oi) = oidx.get(p) {
+				tabs.insert((*t, o.off(*oi)?));
+				interesting.insert(*oi);
+			}
+		}
+		for it in &o_items {
+			if let Some(s) = it["s"].as_i64() {
+				interesting.insert(s);
+			}
+		}
+		interesting.insert(oinsns.len() as i64);
+		let mut offs = Map::new();
+		for i in interesting {
+			offs.insert(i.to_string(), json!(o.off(i)?));
+		}
+		methods.push(json!({"m": m, "nt": insns.len(), "no": oinsns.len(), "len": o.code_length, "T": t_items, "O": o_items,
+			"offs": offs, "tabs": tabs.into_iter().map(|(t, d)| json!([t, d])).collect::<Vec<_>>()}));
+	}
+	Ok(json!({"res": "ok", "parse": "ok", "raw": raw_summary(&parsed.raw), "diffs": atoms, "detail": detail, "methods": methods,
+		"size": bytes.len()}))
+}
+
+fn read(bytes: &[u8]) -> Result<ClassFile> {
+	duke::read_class(&mut Cursor::new(bytes))
+}
+
+// ---------------------------------------------------------------------------------------------
+// layout vectors
+
+fn nop() -> Value { json!({"op": "nop"}) }
+
+/// The class for an item list: (facts, encoding, first instruction index of every item).
+fn layout_class(items: &[Value]) -> Result<(Value, Encoding)> {
+	let mut starts = Vec::with_capacity(items.len() + 1);
+	let mut n = 0usize;
+	let mut variant = 0usize;
+	for it in items {
+		starts.push(n);
+		let k = it["k"].as_str().context("item kind")?;
+		let sz = it["n"].as_u64().unwrap_or(0) as usize;
+		variant += sz;
+		n += if k == "pad" { sz / 6 + sz % 6 } else { 1 };
+	}
+	starts.push(n);
+	let target = |it: &Value, s: usize| -> Result<usize> {
+		let t = it["t"].get(s).and_then(Value::as_u64).context("target")? as usize;
+		starts.get(t.wrapping_sub(1)).copied().filter(|_| t >= 1 && t <= items.len()).context("target out of range")
+	};
+	let mut insns = Vec::with_capacity(n);
+	let mut grows = Vec::new();
+	for (i, it) in items.iter().enumerate() {
+		match it["k"].as_str().unwrap_or("") {
+			// n bytes: `wide iinc` (6 bytes in the input and in duke's output: local 300) and `nop`
+			"pad" => {
+				let sz = it["n"].as_u64().unwrap_or(0);
+				for _ in 0..sz / 6 {
+					insns.push(json!({"op": "iinc", "var": 300, "by": 1}));
+				}
+				for _ in 0..sz % 6 {
+					insns.push(nop());
+				}
+			}
+			"grow" => {
+				grows.push(insns.len());
+				insns.push(json!({"op": "ldc", "const": {"int": 1_000_000 + i}}));
+			}
+			"if" => insns.push(json!({"op": IF_OPS[(variant + i) % 16], "target": target(it, 0)?})),
+			"goto" => insns.push(json!({"op": "goto", "target": target(it, 0)?})),
+			"jsr" => insns.push(json!({"op": "jsr", "target": target(it, 0)?})),
+			"tsw" => {
+				let arms = it["t"].as_array().map_or(0, |a| a.len());
+				let mut ts = Vec::new();
+				for s in 1..arms {
+					ts.push(target(it, s)?);
+				}
+				insns.push(json!({"op": "tableswitch", "default": target(it, 0)?, "low": -1, "targets": ts}));
+			}
+			"lsw" => {
+				let arms = it["t"].as_array().map_or(0, |a| a.len());
+				let mut ps = Vec::new();
+				for s in 1..arms {
+					ps.push(json!([(s as i64) * 1000 - 1500, target(it, s)?]));
+				}
+				insns.push(json!({"op": "lookupswitch", "default": target(it, 0)?, "pairs": ps}));
+			}
+			other => bail!("unknown item kind {other:?}"),
+		}
+	}
+	// tables: one line number per item; an exception range over all but the last item, handled at a middle item
+	let lines: Vec<Value> = (0..items.len()).map(|i| json!([starts[i], i + 1])).collect();
+	let mut exceptions = Vec::new();
+	let last = starts[items.len() - 1];
+	if last > 0 {
+		exceptions.push(json!({"start": 0, "end": last, "handler": starts[items.len() / 2], "catch": "java/lang/Exception"}));
+	}
+	if n >= 2 {
+		exceptions.push(json!({"start": starts[items.len() / 2].min(n - 2), "end": n - 1, "handler": last}));
+	}
+	let code = code_facts(2, 301, insns, exceptions, obj([("LineNumberTable", Value::Array(lines))]));
+	let mut methods = Vec::new();
+	let mut enc = Encoding::default();
+	if !grows.is_empty() {
+		let mut fill: Vec<Value> = (0..260).map(|i| json!({"op": "ldc", "const": {"int": 70_000 + i}})).collect();
+		fill.push(json!({"op": "return"}));
+		methods.push(method_facts(0x9, "fill", "()V", code_facts(1, 0, fill, vec![], json!({}))));
+		enc.pool_order = Some("reverse".into());
+		for g in &grows {
+			enc.forms.push((1, *g, "short".into()));
+		}
+	}
+	methods.push(method_facts(0x9, "m", "()V", code));
+	let facts = class_facts(52, "gen/Layout", vec![], methods);
+	Ok((facts, enc))
+}
+
+fn exec_layout(v: &Value) -> Result<Value> {
+	let items = v["items"].as_array().context("items")?;
+	let (facts, enc) = layout_class(items)?;
+	let bytes = match assemble(&facts, &enc) {
+		Ok(b) => b,
+		Err(AsmError::Unencodable(m)) => return Ok(json!({"skipped": true, "why": m})),
+		Err(e) => bail!("layout class: {e}"),
+	};
+	let tree = read(&bytes).context("duke cannot read the layout class")?;
+	write_and_observe(&tree)
+}
+
+// ---------------------------------------------------------------------------------------------
+// pool vectors
+
+fn pool_class(v: &Value) -> Result<(Value, Encoding)> {
+	let pre = v["pre"].as_u64().unwrap_or(0) as usize;
+	let puts = v["puts"].as_array().context("puts")?;
+	let mut insns: Vec<Value> = puts.iter().map(|c| json!({"op": "ldc", "const": c})).collect();
+	insns.push(json!({"op": "return"}));
+	let m = method_facts(0x9, "m", "()V", code_facts(2, 0, insns, vec![], json!({})));
+	let facts = class_facts(55, "gen/Pool", (0..pre).map(|i| json!(format!("i/I{i}"))).collect(), vec![m]);
+	let mut enc = Encoding::default();
+	if let Some(q) = v["pad"].as_u64() {
+		enc.pool_pad = Some(q as u32);
+	}
+	if v["order"].as_str() == Some("reverse") {
+		enc.pool_order = Some("reverse".into());
+	}
+	Ok((facts, enc))
+}
+
+fn exec_pool(v: &Value) -> Result<Value> {
+	let (facts, enc) = pool_class(v)?;
+	let bytes = match assemble(&facts, &enc) {
+		Ok(b) => b,
+		Err(AsmError::Unencodable(m)) => return Ok(json!({"skipped": true, "why": m})),
+		Err(e) => bail!("pool class: {e}"),
+	};
+	let mut tree = read(&bytes).context("duke cannot read the pool class")?;
+	if v["ren"].as_bool() == Some(true) {
+		tree = dukebox::remap::remap_class(&Prefix, tree).context("remap")?;
+	}
+	let mut got = write_and_observe(&tree)?;
+	// what the written file uses for the k-th put: pool index, its kind, the instruction's form
+	if got["res"] == "ok" && got["parse"] == "ok" {
+		let mut out: Vec<u8> = Vec::new();
+		duke::write_class(&mut out, &tree).map_err(|e| anyhow!("second write failed: {e:#}"))?;
+		let p = parse_class(&out).map_err(|e| anyhow!("second parse failed: {e}"))?;
+		let n = v["puts"].as_array().map_or(0, |a| a.len());
+		let mut idx = vec![Value::Null; n];
+		for u in p.raw["uses"].as_array().map(|a| a.as_slice()).unwrap_or(&[]) {
+			let w = u[2].as_str().unwrap_or("");
+			if let Some(rest) = w.strip_prefix("method[0].Code.insn[") {
+				if let Ok(k) = rest.trim_end_matches(']').parse::<usize>() {
+					if k < n {
+						idx[k] = u[0].clone();
+					}
+				}
+			}
+		}
+		let forms: Vec<Value> = p.layout[0]["forms"].as_array().map(|a| a[..n.min(a.len())].to_vec()).unwrap_or_default();
+		got["put_idx"] = Value::Array(idx);
+		got["put_form"] = Value::Array(forms);
+	}
+	Ok(got)
+}
+
+// ---------------------------------------------------------------------------------------------
+// write by id
+
+fn inputs() -> &'static HashMap<String, Vec<u8>> {
+	static C: OnceLock<HashMap<String, Vec<u8>>> = OnceLock::new();
+	C.get_or_init(|| cfkit::duke_diff::inputs().into_iter().collect())
+}
+
+struct Prefix;
+impl quill::remapper::ARemapper for Prefix {
+	fn map_class_fail(&self, class: &duke::tree::class::ObjClassNameSlice) -> Result<Option<duke::tree::class::ObjClassName>> {
+		let mut s = java_string::JavaString::from("renamed/");
+		s.push_java_str(class.as_inner());
+		Ok(Some(duke::tree::class::ObjClassName::try_from(s)?))
+	}
+}
+impl quill::remapper::BRemapper for Prefix {
+	fn map_field_fail(&self, _owner: &duke::tree::class::ObjClassNameSlice, name: &duke::tree::field::FieldNameSlice,
+		desc: &duke::tree::field::FieldDescriptorSlice) -> Result<Option<duke::tree::field::FieldNameAndDesc>> {
+		use quill::remapper::ARemapper;
+		let mut s = java_string::JavaString::from("r_");
+		s.push_java_str(name.as_inner());
+		Ok(Some(duke::tree::field::FieldNameAndDesc { name: duke::tree::field::FieldName::try_from(s)?, desc: self.map_field_desc(desc)? }))
+	}
+	fn map_method_fail(&self, _owner: &duke::tree::class::ObjClassNameSlice, name: &duke::tree::method::MethodNameSlice,
+		desc: &duke::tree::method::MethodDescriptorSlice) -> Result<Option<duke::tree::method::MethodNameAndDesc>> {
+		use quill::remapper::ARemapper;
+		let n = name.as_inner();
+		let new = if n.starts_with('<') {
+			n.to_owned()
+		} else {
+			let mut s = java_string::JavaString::from("r_");
+			s.push_java_str(n);
+			s
+		};
+		Ok(Some(duke::tree::method::MethodNameAndDesc { name: duke::tree::method::MethodName::try_from(new)?, desc: self.map_method_desc(desc)? }))
+	}
+}
+
+/// Sets `local_variables` on every method of a read tree from LocalVariable(Type)Table rows of the reference
+/// facts: the ranges are taken from `local_variable` type annotation targets with the same bounds (the only
+/// public source of `LabelRange` values), which the generated family carries for that purpose.
+fn set_local_variables(tree: &mut ClassFile, facts: &Value) -> Result<usize> {
+	use duke::tree::type_annotation::TargetInfoCode;
+	let mut set = 0;
+	let fmethods = facts["methods"].as_array().context("methods")?;
+	for (mi, m) in tree.methods.iter_mut().enumerate() {
+		let Some(code) = m.code.as_mut() else { continue };
+		let fcode = &fmethods[mi]["attrs"]["Code"];
+		let mut ranges = Vec::new();
+		for ta in code.runtime_invisible_type_annotations.iter().chain(code.runtime_visible_type_annotations.iter()) {
+			if let TargetInfoCode::LocalVariable { table } = &ta.type_reference {
+				for (r, idx) in table {
+					ranges.push((r.clone(), *idx));
+				}
+			}
+		}
+		let mut fr = Vec::new();
+		for name in ["RuntimeInvisibleTypeAnnotations", "RuntimeVisibleTypeAnnotations"] {
+			for ta in fcode["attrs"][name].as_array().map(|a| a.as_slice()).unwrap_or(&[]) {
+				if ta["target"]["kind"] == "local_variable" {
+					for row in ta["target"]["table"].as_array().map(|a| a.as_slice()).unwrap_or(&[]) {
+						fr.push((row["start"].as_u64(), row["end"].as_u64(), row["slot"].as_u64()));
+					}
+				}
+			}
+		}
+		if fr.len() != ranges.len() {
+			bail!("method {mi}: {} ranges in the tree, {} in the facts", ranges.len(), fr.len());
+		}
+		let mut lvs = Vec::new();
+		for (name, is_sig) in [("LocalVariableTable", false), ("LocalVariableTypeTable", true)] {
+			for row in fcode["attrs"][name].as_array().map(|a| a.as_slice()).unwrap_or(&[]) {
+				let key = (row["start"].as_u64(), row["end"].as_u64(), row["slot"].as_u64());
+				let Some(k) = fr.iter().position(|x| *x == key) else { continue };
+				let lname = duke::tree::method::code::LocalVariableName::try_from(java_string::JavaString::from(row["name"].as_str().context("name")?))?;
+				let text = java_string::JavaString::from(row[if is_sig { "sig" } else { "desc" }].as_str().context("desc")?);
+				lvs.push(duke::tree::method::code::Lv {
+					range: ranges[k].0.clone(),
+					name: lname,
+					descriptor: if is_sig { None } else { Some(duke::tree::field::FieldDescriptor::try_from(text.clone())?) },
+					signature: if is_sig { Some(duke::tree::field::FieldSignature::try_from(text)?) } else { None },
+					index: ranges[k].1,
+				});
+			}
+		}
+		if !lvs.is_empty() {
+			set += lvs.len();
+			code.local_variables = Some(lvs);
+		}
+	}
+	Ok(set)
+}
+
+fn generated(id: &str) -> Result<Option<(Value, Encoding)>> {
+	let Some(rest) = id.strip_prefix("gen/") else { return Ok(None) };
+	let parts: Vec<&str> = rest.split('/').collect();
+	let num = |i: usize| -> Result<usize> { parts.get(i).context("parameter")?.parse::<usize>().context("number") };
+	Ok(Some(match parts[0] {
+		// locals crossing 255: every load / store / ret / iinc family around the boundary
+		"locals" => {
+			let base = num(1)?;
+			let mut insns = Vec::new();
+			for d in 0..4usize {
+				let v = base + d;
+				for op in ["iload", "lload", "fload", "dload", "aload", "istore", "lstore", "fstore", "dstore", "astore"] {
+					insns.push(json!({"op": op, "var": v}));
+				}
+				insns.push(json!({"op": "iinc", "var": v, "by": 1}));
+				insns.push(json!({"op": "iinc", "var": v, "by": 128}));
+				insns.push(json!({"op": "iinc", "var": v, "by": -129}));
+				insns.push(json!({"op": "ret", "var": v}));
+			}
+			insns.push(json!({"op": "goto", "target": 0}));
+			let m = cfkit::samples::method_with_code(0x9, "m", "()V", cfkit::samples::code(4, 65535, insns, vec![], json!({})));
+			let facts = cfkit::samples::class([50, 0], 0x21, "gen/Locals", Some("java/lang/Object"), vec![], vec![m], json!({}));
+			let enc = match parts.get(2).copied() {
+				Some("wide") => Encoding { default_forms: [("load", "wide"), ("store", "wide"), ("ret", "wide"), ("iinc", "wide")].iter().map(|(a, b)| (a.to_string(), b.to_string())).collect(), ..Default::default() },
+				_ => Encoding::default(),
+			};
+			(facts, enc)
+		}
+		// a class with local variable tables and matching local_variable type annotations (for variant "lvt")
+		"lvt" => {
+			let n = num(1)?.max(2);
+			let mut insns: Vec<Value> = (0..n).map(|i| if i % 3 == 0 { json!({"op": "iload", "var": i % 5}) } else if i % 3 == 1 { json!({"op": "pop"}) } else { nop() }).collect();
+			insns.push(json!({"op": "goto", "target": 0}));
+			let rows: Vec<(usize, usize, usize)> = vec![(0, n, 0), (1, n / 2 + 1, 1), (n / 2, n, 300), (0, 1, 2)];
+			let lvt: Vec<Value> = rows.iter().enumerate().map(|(k, (s, e, slot))| json!({"start": s, "end": e, "name": format!("v{k}"), "desc": if k % 2 == 0 { "I" } else { "Ljava/util/List;" }, "slot": slot})).collect();
+			let lvtt: Vec<Value> = rows.iter().enumerate().filter(|(k, _)| k % 2 == 1).map(|(k, (s, e, slot))| json!({"start": s, "end": e, "name": format!("v{k}"), "sig": "Ljava/util/List<Ljava/lang/String;>;", "slot": slot})).collect();
+			let table: Vec<Value> = rows.iter().map(|(s, e, slot)| json!({"start": s, "end": e, "slot": slot})).collect();
+			let ta = json!([{"target": {"kind": "local_variable", "table": table}, "path": [], "type": "Lk/A;", "pairs": []}]);
+			let mut l1 = lvt.clone();
+			let mut l2 = lvtt.clone();
+			cfkit::facts::canon_sort(&mut l1);
+			cfkit::facts::canon_sort(&mut l2);
+			let attrs = json!({"LocalVariableTable": l1, "LocalVariableTypeTable": l2, "RuntimeInvisibleTypeAnnotations": ta});
+			let m = cfkit::samples::method_with_code(0x9, "m", "()V", cfkit::samples::code(2, 301, insns, vec![], attrs));
+			(cfkit::samples::class([52, 0], 0x21, "gen/Lvt", Some("java/lang/Object"), vec![], vec![m], json!({})), Encoding::default())
+		}
+		// more than 255 constants in duke's own pool: ldc of every loadable kind on both sides of the boundary
+		"ldc" => {
+			let fill = num(1)?;
+			let mut insns: Vec<Value> = (0..fill).map(|i| json!({"op": "ldc", "const": {"int": 100_000 + i}})).collect();
+			for c in cfkit::samples::all_constants() {
+				insns.push(json!({"op": "ldc", "const": c}));
+			}
+			insns.push(json!({"op": "return"}));
+			let m = cfkit::samples::method_with_code(0x9, "m", "()V", cfkit::samples::code(2, 0, insns, vec![], json!({})));
+			let enc = match parts.get(2).copied() {
+				Some("pad") => Encoding { pool_pad: Some(300), ..Default::default() },
+				Some("reverse") => Encoding { pool_order: Some("reverse".into()), ..Default::default() },
+				Some("w") => Encoding { default_forms: [("ldc".to_string(), "w".to_string())].into_iter().collect(), ..Default::default() },
+				_ => Encoding::default(),
+			};
+			(cfkit::samples::class([55, 0], 0x21, "gen/Ldc", Some("java/lang/Object"), vec![], vec![m], json!({})), enc)
+		}
+		other => bail!("unknown generated family {other:?}"),
+	}))
+}
+
+fn exec_write(v: &Value) -> Result<Value> {
+	let id = v["id"].as_str().context("id")?;
+	let variant = v["variant"].as_str().unwrap_or("plain");
+	let mut reference = None;
+	let owned;
+	let bytes: &[u8] = match generated(id)? {
+		Some((facts, enc)) => {
+			owned = assemble(&facts, &enc).map_err(|e| anyhow!("generated class {id}: {e}"))?;
+			reference = Some(facts);
+			&owned
+		}
+		None => inputs().get(id).with_context(|| format!("unknown class id {id}"))?,
+	};
+	let mut tree = match read(bytes) {
+		Ok(t) => t,
+		Err(e) => return Ok(json!({"skipped": true, "why": format!("duke cannot read it: {e:#}").chars().take(200).collect::<String>()})),
+	};
+	match variant {
+		"plain" => {}
+		"renamed" => tree = dukebox::remap::remap_class(&Prefix, tree).context("remap")?,
+		"lvt" => {
+			let facts = match reference {
+				Some(f) => f,
+				None => parse_class(bytes).map_err(|e| anyhow!("reference parse: {e}"))?.facts,
+			};
+			let n = set_local_variables(&mut tree, &facts)?;
+			if n == 0 {
+				return Ok(json!({"skipped": true, "why": "no local variable rows with a matching range"}));
+			}
+		}
+		other => bail!("unknown variant {other:?}"),
+	}
+	write_and_observe(&tree)
+}
+
+pub fn exec(v: &Value) -> Result<Value> {
+	match v["op"].as_str().context("op")? {
+		"layout" => exec_layout(v),
+		"pool" => exec_pool(v),
+		"write" => exec_write(v),
+		other => bail!("C02: unknown op {other:?}"),
+	}
+}
+
+// ---------------------------------------------------------------------------------------------
+// generation of I2S inputs (never computes expectations)
+
+/// A list of pads, grows and jumps whose input form fills the method up to the last few bytes: the grows
+/// (2 bytes in the input, 3 in the output) decide whether the written method still fits.
+fn rnd_tight(r: &mut StdRng) -> Value {
+	let n = r.gen_range(3..=7usize);
+	let mut items: Vec<Value> = Vec::new();
+	let mut used: i64 = 0;
+	let big = r.gen_range(0..n);
+	for i in 0..n {
+		if i == big {
+			items.push(Value::Null);
+			continue;
+		}
+		let roll = r.gen_range(0..10);
+		let it = if roll < 4 {
+			used += 2;
+			json!({"k": "grow", "n": 3, "t": []})
+		} else if roll < 7 {
+			let sz = r.gen_range(1..9);
+			used += sz;
+			json!({"k": "pad", "n": sz, "t": []})
+		} else {
+			used += 3;
+			// a near target, so that the input holds the jump in its short form
+			let t = if i > big { r.gen_range(big + 2..=n).min(n) } else { r.gen_range(1..=big.max(1)) };
+			let k = ["if", "goto", "jsr"][r.gen_range(0..3)];
+			json!({"k": k, "n": 0, "t": [t]})
+		};
+		items.push(it);
+	}
+	let slack = r.gen_range(0..5);
+	items[big] = json!({"k": "pad", "n": 65535 - used - slack, "t": []});
+	Value::Array(items)
+}
+
+fn rnd_items(r: &mut StdRng) -> Value {
+	if r.gen_range(0..5) == 0 {
+		return rnd_tight(r);
+	}
+	let n = r.gen_range(2..=9usize);
+	// budget of bytes for big pads so that most lists stay within the limit
+	let mut budget: i64 = 65535 + r.gen_range(-40..12);
+	let mut items = Vec::new();
+	for _ in 0..n {
+		let roll = r.gen_range(0..100);
+		let t = |r: &mut StdRng| r.gen_range(1..=n);
+		let it = if roll < 40 {
+			let sz: i64 = match r.gen_range(0..10) {
+				0..=3 => r.gen_range(1..6),
+				4..=6 => r.gen_range(32740..32775),
+				7 => r.gen_range(16000..17000),
+				8 => r.gen_range(100..400),
+				_ => (budget - r.gen_range(0..40)).max(1),
+			};
+			let sz = sz.min(budget.max(1)).max(1);
+			budget -= sz;
+			json!({"k": "pad", "n": sz, "t": []})
+		} else if roll < 48 {
+			budget -= 3;
+			json!({"k": "grow", "n": 3, "t": []})
+		} else if roll < 64 {
+			budget -= 3;
+			json!({"k": "if", "n": 0, "t": [t(r)]})
+		} else if roll < 76 {
+			budget -= 3;
+			json!({"k": "goto", "n": 0, "t": [t(r)]})
+		} else if roll < 84 {
+			budget -= 3;
+			json!({"k": "jsr", "n": 0, "t": [t(r)]})
+		} else {
+			let arms = r.gen_range(1..4);
+			let ts: Vec<usize> = (0..=arms).map(|_| t(r)).collect();
+			budget -= 20 + 8 * arms as i64;
+			json!({"k": if roll < 92 { "tsw" } else { "lsw" }, "n": 0, "t": ts})
+		};
+		items.push(it);
+	}
+	Value::Array(items)
+}
+
+/// Random constants over a small vocabulary, so that sub-entries are shared in many ways.
+fn rnd_const(r: &mut StdRng, depth: usize) -> Value {
+	let names = ["a", "b", "m", "()V", "Code", "gen/Pool", "k/B", "I", "x"];
+	let name = |r: &mut StdRng| names[r.gen_range(0..names.len())];
+	let handle = |r: &mut StdRng| {
+		let field = r.gen_bool(0.3);
+		let kinds: &[&str] = if field { &["getfield", "getstatic", "putfield", "putstatic"] } else { &["invokevirtual", "invokestatic", "invokespecial", "newinvokespecial", "invokeinterface"] };
+		let kind = kinds[r.gen_range(0..kinds.len())];
+		let itf = kind == "invokeinterface" || ((kind == "invokestatic" || kind == "invokespecial") && r.gen_bool(0.3));
+		let owner = ["k/B", "a", "gen/Pool"][r.gen_range(0..3)];
+		let nm = ["b", "f", "m", "a"][r.gen_range(0..4)];
+		let desc = if field { ["I", "J", "La;"][r.gen_range(0..3)] } else { ["()V", "()I", "(I)La;"][r.gen_range(0..3)] };
+		json!({"kind": kind, "owner": owner, "name": nm, "desc": desc, "itf": itf})
+	};
+	match r.gen_range(0..if depth == 0 { 11 } else { 8 }) {
+		0 => json!({"int": r.gen_range(-2..3)}),
+		1 => json!({"float": r.gen_range(0..3)}),
+		2 => json!({"long": r.gen_range(-1..2i64).to_string()}),
+		3 => json!({"double": r.gen_range(0..3u64).to_string()}),
+		4 | 5 => json!({"string": name(r)}),
+		6 => {
+			let c = ["a", "b", "gen/Pool", "k/B", "[I", "[La;"][r.gen_range(0..6)];
+			json!({"class": c})
+		}
+		7 => {
+			let d = ["()V", "()I", "(I)La;"][r.gen_range(0..3)];
+			json!({"method_type": d})
+		}
+		8 => json!({"method_handle": handle(r)}),
+		_ => {
+			let nargs = r.gen_range(0..3);
+			let args: Vec<Value> = (0..nargs).map(|_| rnd_const(r, depth + 1)).collect();
+			let (bn, dn, dd) = (["b", "c"][r.gen_range(0..2)], ["x", "y", "m"][r.gen_range(0..3)], ["I", "J", "La;", "D"][r.gen_range(0..4)]);
+			let bsm = json!({"kind": "invokestatic", "owner": "k/B", "name": bn, "desc": "()Ljava/lang/Object;", "itf": false});
+			json!({"dynamic": {"bsm": bsm, "args": args, "name": dn, "desc": dd}})
+		}
+	}
+}
+
+fn rnd_pool(r: &mut StdRng) -> Value {
+	let n = r.gen_range(1..=14usize);
+	let puts: Vec<Value> = (0..n).map(|_| rnd_const(r, 0)).collect();
+	let pre = if r.gen_bool(0.2) { r.gen_range(0..5) } else { r.gen_range(100..128) };
+	// the specification's renaming model covers constants without handles
+	let plain = puts.iter().all(|c| c.get("method_handle").is_none() && c.get("dynamic").is_none() && c.get("class").map_or(true, |x| !x.as_str().unwrap_or("").starts_with('[')));
+	let pad = [0, 0, 7, 300][r.gen_range(0..4)];
+	json!({"op": "pool", "pre": pre, "puts": puts, "ren": plain && r.gen_bool(0.4), "pad": pad, "rnd": true})
+}
+
+pub fn gen(seed: u64, n: usize) -> Result<Vec<Value>> {
+	let mut r = StdRng::seed_from_u64(seed ^ 0xC02);
+	let thorough = n >= 2000;
+	let mut out = Vec::new();
+	// 1. generated families
+	for base in [0usize, 2, 252, 254, 65532] {
+		for e in ["min", "wide"] {
+			out.push(json!({"op": "write", "id": format!("gen/locals/{base}/{e}"), "variant": "plain"}));
+		}
+	}
+	for fill in [0usize, 200, 236, 240, 244, 248, 252, 256, 300] {
+		for e in ["min", "pad", "reverse", "w"] {
+			out.push(json!({"op": "write", "id": format!("gen/ldc/{fill}/{e}"), "variant": "plain"}));
+			if e == "min" {
+				out.push(json!({"op": "write", "id": format!("gen/ldc/{fill}/{e}"), "variant": "renamed"}));
+			}
+		}
+	}
+	for k in [2usize, 7, 40, 300] {
+		out.push(json!({"op": "write", "id": format!("gen/lvt/{k}"), "variant": "lvt"}));
+		out.push(json!({"op": "write", "id": format!("gen/lvt/{k}"), "variant": "plain"}));
+	}
+	// 2. samples under every standard encoding (those duke can read), corpus classes (all of them in the thorough tier)
+	let mut ids: Vec<&String> = inputs().keys().collect();
+	ids.sort();
+	let readable = |id: &String| std::panic::catch_unwind(|| read(&inputs()[id]).is_ok()).unwrap_or(true);
+	let samples: Vec<&String> = ids.iter().copied().filter(|i| i.starts_with("sample/")).filter(|i| readable(i)).collect();
+	let corpus: Vec<&String> = ids.iter().copied().filter(|i| !i.starts_with("sample/")).collect();
+	let sample_stride = if thorough { 1 } else { 5 };
+	for (k, id) in samples.iter().enumerate() {
+		if k % sample_stride == (seed as usize) % sample_stride {
+			out.push(json!({"op": "write", "id": id, "variant": "plain"}));
+		}
+		if k % (sample_stride * 3) == 1 {
+			out.push(json!({"op": "write", "id": id, "variant": "renamed"}));
+		}
+	}
+	let n_layout = if thorough { 600 } else { 50 };
+	let room = n.saturating_sub(out.len() + n_layout + if thorough { 400 } else { 40 });
+	let stride = (corpus.len() * 7 / 6 / room.max(1)).max(1);
+	let off = if stride > 1 { r.gen_range(0..stride) } else { 0 };
+	for (k, id) in corpus.iter().enumerate() {
+		if k % stride == off {
+			out.push(json!({"op": "write", "id": id, "variant": "plain"}));
+			if k % (stride * 6) == off {
+				out.push(json!({"op": "write", "id": id, "variant": "renamed"}));
+			}
+		}
+	}
+	// 3. random item lists with big pads, random constant sequences
+	for _ in 0..n_layout {
+		out.push(json!({"op": "layout", "items": rnd_items(&mut r), "rnd": true}));
+	}
+	for _ in 0..(if thorough { 400 } else { 40 }) {
+		out.push(rnd_pool(&mut r));
+	}
+	Ok(out)
+}
